@@ -37,9 +37,9 @@ Definition ev_leaky : env :=
 Definition site_sanitised : site :=
   {| s_file := 1; s_line := 228; s_level := Error; s_args := [AConst; ASanitised Conns] |}.
 Definition site_raw : site :=
-  {| s_file := 1; s_line := 192; s_level := Error; s_args := [AConst; ARawErr] |}.
+  {| s_file := 1; s_line := 192; s_level := Error; s_args := [AConst; AErr (PConn AnyConn OpSet)] |}.
 Definition site_raw_debug : site :=
-  {| s_file := 1; s_line := 192; s_level := Debug; s_args := [AConst; ARawErr] |}.
+  {| s_file := 1; s_line := 192; s_level := Debug; s_args := [AConst; AErr (PConn AnyConn OpSet)] |}.
 
 Example safe_site_applies : safe_site site_sanitised = true /\ has_addr (output default_level site_sanitised ev_leaky) = false
   /\ output default_level site_sanitised ev_leaky <> [].
@@ -50,6 +50,42 @@ Example raw_site_leaks : safe_site site_raw = false /\ has_addr (output default_
 Proof. split; reflexivity. Qed.
 (* ... unless the level gates the line *)
 Example raw_site_gated : safe_site site_raw_debug = true /\ output default_level site_raw_debug ev_leaky = [].
+Proof. split; reflexivity. Qed.
+
+(* producers.  What TCPConn.File returns when the descriptor table is full:
+   "file tcp4 127.0.0.1:41245->203.0.113.7:50079: fcntl: too many open files" *)
+Definition e_file_emfile : eshape := EOp true (ESys (Leaf (LErrno 24))).
+Definition e_file_closed : eshape := EOp true (Leaf LNetClosed).
+Example file_producer_examples :
+  can_produce (PConn TcpConn OpFile) e_file_emfile = true /\ mentions e_file_emfile = true /\
+  can_produce (PConn TcpConn OpFile) e_file_closed = true /\ mentions e_file_closed = true /\
+  addr_free_producer (PConn TcpConn OpFile) = false /\
+  (* through the sanitiser: "file: too many open files" and "closed" *)
+  generalize Conns (Some e_file_emfile) = Some (EWrap false (Leaf (LErrno 24))) /\
+  generalize Conns (Some e_file_closed) = Some (Leaf (LSentinel 5)).
+Proof. repeat split. Qed.
+(* SetDeadline on the concrete TCP connection names the local address only; a bare errno from getsockopt none at all *)
+Example address_free_producers :
+  addr_free_producer (PConn TcpConn OpSet) = true /\ can_produce (PConn TcpConn OpSet) (EOp false (Leaf LNetClosed)) = true /\
+  can_produce (PConn TcpConn OpSet) e_file_closed = false /\
+  addr_free_producer PSyscall = true /\ can_produce PSyscall (Leaf (LErrno 2)) = true /\ can_produce PSyscall e_file_emfile = false.
+Proof. repeat split. Qed.
+(* the same call through the net.Conn interface (a transport's layered connection) can return anything *)
+Example interface_conn_can_leak : addr_free_producer (PConn AnyConn OpSet) = false /\ can_produce (PConn AnyConn OpSet) e_file_emfile = true.
+Proof. split; reflexivity. Qed.
+
+(* handleNewConn's File() site: sanitised it is safe; logged raw it is unsafe and the failing run exists *)
+Definition site_file_ok : site := {| s_file := 1; s_line := 93; s_level := Error; s_args := [ASanitised Conns] |}.
+Definition site_file_raw : site := {| s_file := 1; s_line := 93; s_level := Error; s_args := [AErr (PConn TcpConn OpFile)] |}.
+Definition site_origdst : site := {| s_file := 1; s_line := 100; s_level := Error; s_args := [AErr PSyscall] |}.
+Example file_site_examples :
+  safe_site site_file_ok = true /\ safe_site site_origdst = true /\ safe_site site_file_raw = false /\
+  env_ok site_file_raw (wit_env site_file_raw) = true /\
+  has_addr (output default_level site_file_raw (wit_env site_file_raw)) = true.
+Proof. repeat split. Qed.
+(* env_ok is not vacuous for a safe raw site: ENOENT from getsockopt is a consistent run, and prints *)
+Definition ev_enoent : env := {| env_value := EVUnset; err_of := fun _ => Some (Leaf (LErrno 2)); digest_of := fun _ => []; const_of := fun _ => [] |}.
+Example origdst_run : env_ok site_origdst ev_enoent = true /\ output default_level site_origdst ev_enoent = [TWord 1002].
 Proof. split; reflexivity. Qed.
 
 (* the regenerated table is not empty, contains default-level sites with sanitised errors, and the
